@@ -218,6 +218,10 @@ type Cluster struct {
 	// ProduceErr lets a scenario force an error code for a produce to a partition
 	ProduceErr func(r *Req, topic string, part int32) (code int16, apply bool)
 	ExpectClientID string
+	// Mutate post-processes a response body before it is encoded (error injection)
+	Mutate func(r *Req, body rc.Msg) rc.Msg
+	// MutateFrame post-processes the encoded response frame (framing faults)
+	MutateFrame func(r *Req, frame []byte) []byte
 	// TruncateAtMaxBytes: a partition's record set is cut at partition_max_bytes
 	// in the middle of a batch (what brokers do; consumers drop the partial tail)
 	TruncateAtMaxBytes bool
@@ -409,6 +413,9 @@ func (b *Broker) respond(c *Conn, st *connState, r *Req, body rc.Msg) {
 		b.pump(c, st)
 		return
 	}
+	if cl.Mutate != nil {
+		body = cl.Mutate(r, body)
+	}
 	r.Resp = body
 	if cl.S.traceOn {
 		cl.S.Tracef("b%d c%d %s v%d #%d req=%v", b.ID, c.ID, r.API.Name, r.Hdr.APIVersion, r.Hdr.CorrelationID, briefMsg(r.Body))
@@ -417,6 +424,9 @@ func (b *Broker) respond(c *Conn, st *connState, r *Req, body rc.Msg) {
 	frame, _, err := rc.EncodeResponse(r.Hdr.APIKey, r.Hdr.APIVersion, r.Hdr.CorrelationID, body, nil)
 	if err != nil {
 		panic(fmt.Sprintf("simkafka: cannot encode %s v%d response: %v", r.API.Name, r.Hdr.APIVersion, err))
+	}
+	if cl.MutateFrame != nil {
+		frame = cl.MutateFrame(r, frame)
 	}
 	r.RespLen = len(frame)
 	delay := cl.N.latency()
